@@ -71,7 +71,15 @@ const PLACEMENTS = {
   // the mention sits only in a default value of a nested non-arrow function / method / constructor
   'default-value-of-nested-function': (R) => `let ${R} = 'U1';\nfunction f(act) {\n  const v = $.p(act, 1) + $.p(act, 2);\n  function inner(q = ${R}) { return q; }\n  $.u('q', inner());\n  return v;\n}`,
   'default-value-of-nested-method': (R) => `let ${R} = 'U1';\nfunction f(act) {\n  const v = $.p(act, 1) + $.p(act, 2);\n  const o = { m(q = ${R}) { return q; } };\n  class K { constructor(q = ${R}) { this.q = q; } }\n  $.u('q', o.m() + new K().q);\n  return v;\n}`,
-  'else-if-unbraced': (R) => `let ${R} = 'U1';\nfunction f(act) {\n  const v = $.p(act, 1) + $.p(act, 2);\n  if ($.u('c', 0)) { v.length; } else if ($.u('d', 1)) ${R} = 'U3';\n  const w = $.p(act, 3) + $.p(act, 4);\n  return v + w;\n}\nconst rd = () => ${R};\nconst after = () => $.u('outer', rd());`
+  'else-if-unbraced': (R) => `let ${R} = 'U1';\nfunction f(act) {\n  const v = $.p(act, 1) + $.p(act, 2);\n  if ($.u('c', 0)) { v.length; } else if ($.u('d', 1)) ${R} = 'U3';\n  const w = $.p(act, 3) + $.p(act, 4);\n  return v + w;\n}\nconst rd = () => ${R};\nconst after = () => $.u('outer', rd());`,
+  // round r: the reserved name is mentioned only AFTER an unconditional jump of the block that injects the
+  // temporaries, in a position that is hoisted (or shares the scope) all the same
+  'var-after-return': (R) => `function f(act) {\n  const v = $.p(act, 1) + $.p(act, 2);\n  return v;\n  var ${R} = 'never';\n}`,
+  'function-declaration-after-return': (R) => `function f(act) {\n  const v = $.p(act, 1) + $.p(act, 2);\n  return v;\n  function ${R}() { return 'U1'; }\n}`,
+  'helper-parameter-after-return': (R) => `function f(act) {\n  const v = $.p(act, 1) + $.p(act, 2);\n  return v + h('U1', act);\n  function h(${R}, a) { const w = $.p(a, 3) + $.p(a, 4); $.u('param', ${R}); return w; }\n}`,
+  'var-after-break-in-case-block': (R) => `function f(act) {\n  switch ($.u('k', 1)) {\n    case 1: { const v = $.p(act, 1) + $.p(act, 2); $.u('t', v.length > 0); break; var ${R}; }\n  }\n  return 'x';\n}`,
+  'var-after-continue-in-loop-body': (R) => `function f(act) {\n  for (let i = 0; i < 2; i++) { const v = $.p(act, 1) + $.p(act, 2); $.u('t', v.length > 0); continue; var ${R}; }\n  return 'x';\n}`,
+  'function-declaration-after-throw': (R) => `function f(act) {\n  try {\n    const v = $.p(act, 1) + $.p(act, 2);\n    throw new Error(v);\n    function ${R}() { return 'U1'; }\n  } catch (e) { return 'caught'; }\n}`
 }
 
 function planH5 (rng, prefix0, seq) {
